@@ -8,10 +8,12 @@ theorem skel_OAuthProxy_OAuthCallback_ok : skel_OAuthProxy_OAuthCallback = ([
   "if err != nil",
   "p.ErrorPage",
   "return",
+  "req.Form.Get",
   "if errorString != \"\"",
   "p.ErrorPage",
   "return",
   "decodeState",
+  "req.Form.Get",
   "if err != nil",
   "p.ErrorPage",
   "return",
@@ -53,6 +55,7 @@ theorem skel_OAuthProxy_OAuthCallback_ok : skel_OAuthProxy_OAuthCallback = ([
   "p.ErrorPage"] : List String) := rfl
 
 theorem skel_OAuthProxy_redeemCode_ok : skel_OAuthProxy_redeemCode = ([
+  "req.Form.Get",
   "if code == \"\"",
   "return nil, providers.ErrMissingCode",
   "p.getOAuthRedirectURI",
